@@ -48,15 +48,23 @@ pub fn source_for(case: &Json) -> String {
         }
     }
     s.push_str("END_VAR\n");
+    // keywords are case-insensitive: 0 = upper, 1 = lower, 2 = capitalised spelling of the task initialisation keys
+    let kw = |word: &str| -> String {
+        match case["kw_case"].as_u64().unwrap_or(0) {
+            1 => word.to_ascii_lowercase(),
+            2 => format!("{}{}", &word[..1], word[1..].to_ascii_lowercase()),
+            _ => word.to_string(),
+        }
+    };
     for (i, t) in tasks.iter().enumerate() {
         let mut parts = vec![];
         if let Some(sg) = t["single"].as_u64() {
-            parts.push(format!("SINGLE := s{sg}"));
+            parts.push(format!("{} := s{sg}", kw("SINGLE")));
         }
         if !t["interval_omitted"].as_bool().unwrap_or(false) {
-            parts.push(format!("INTERVAL := {}", time_literal(t["interval_ns"].as_i64().unwrap_or(0))));
+            parts.push(format!("{} := {}", kw("INTERVAL"), time_literal(t["interval_ns"].as_i64().unwrap_or(0))));
         }
-        parts.push(format!("PRIORITY := {}", t["priority"].as_u64().unwrap_or(0)));
+        parts.push(format!("{} := {}", kw("PRIORITY"), t["priority"].as_u64().unwrap_or(0)));
         s.push_str(&format!("TASK T{i} ({});\n", parts.join(", ")));
     }
     for (i, p) in programs.iter().enumerate() {
@@ -217,7 +225,8 @@ impl Check for C06Check {
             }
             ops.push(json!({"k": "cycle", "dt": dt, "set": set}));
         }
-        json!({"singles": singles, "tasks": tasks, "programs": programs, "ops": ops})
+        let kw_case = *rng.fork("spelling").pick(&[0u64, 0, 1, 2]);
+        json!({"singles": singles, "tasks": tasks, "programs": programs, "kw_case": kw_case, "ops": ops})
     }
 
     fn run(&self, case: &Json, stats: &mut Stats) -> Result<(), Violation> {
